@@ -64,3 +64,88 @@ package builtin
 //@ lemma equalsReflexive(a ast.Interval): wfIv(a) ==> intervalEquals(a, a)
 //@ lemma overlapsSymmetric(a ast.Interval, b ast.Interval): wfIv(a) && wfIv(b) ==> intervalOverlaps(a, b) == intervalOverlaps(b, a)
 //@ lemma beforeExcludesOverlap(a ast.Interval, b ast.Interval): wfIv(a) && wfIv(b) && intervalBefore(a, b) ==> !intervalOverlaps(a, b)
+
+// ---- C07: numeric, time and duration comparisons; abs ------------------------------------------
+
+//@ spec func isC(t ast.BaseTerm, ty ast.ConstantType) bool = t is ast.Constant && (t as ast.Constant).Type == ty
+//@ spec func valOf(t ast.BaseTerm) int64 = (t as ast.Constant).NumValue
+
+//@ func abs(x)
+//@   mode bv
+//@   pure
+//@   ensures x >= 0 ==> result == x
+//@   ensures x < 0 && x != MinInt64 ==> result == 0 - x
+//@   ensures x == MinInt64 ==> result == MaxInt64
+//@   ensures result >= 0
+
+//@ func getNumberValue(b)
+//@   pure
+//@   ensures isC(b, ast.NumberType) ==> err == nil && result == valOf(b)
+//@   ensures !isC(b, ast.NumberType) ==> err != nil
+
+//@ func getTimeValue(b)
+//@   pure
+//@   ensures isC(b, ast.TimeType) ==> err == nil && result == valOf(b)
+//@   ensures !isC(b, ast.TimeType) ==> err != nil
+
+//@ func getDurationValue(b)
+//@   pure
+//@   ensures isC(b, ast.DurationType) ==> err == nil && result == valOf(b)
+//@   ensures !isC(b, ast.DurationType) ==> err != nil
+
+//@ spec func allC(cs []ast.BaseTerm, n int, ty ast.ConstantType) bool = forall k int :: 0 <= k && k < n ==> isC(cs[k], ty)
+//@ spec func valsAre(r []int64, cs []ast.BaseTerm, n int) bool = forall k int :: 0 <= k && k < n ==> r[k] == valOf(cs[k])
+
+//@ func getNumberValues(cs)
+//@   pure
+//@   ensures allC(cs, len(cs), ast.NumberType) ==> err == nil && len(result) == len(cs) && valsAre(result, cs, len(cs))
+//@   ensures !allC(cs, len(cs), ast.NumberType) ==> err != nil
+//@   loop 1 invariant 0 <= rangeindex + 1 && rangeindex + 1 <= len(cs) && len(nums) == rangeindex + 1
+//@   loop 1 invariant allC(cs, rangeindex + 1, ast.NumberType) && valsAre(nums, cs, rangeindex + 1)
+
+//@ func getTimeValues(cs)
+//@   pure
+//@   ensures allC(cs, len(cs), ast.TimeType) ==> err == nil && len(result) == len(cs) && valsAre(result, cs, len(cs))
+//@   ensures !allC(cs, len(cs), ast.TimeType) ==> err != nil
+//@   loop 1 invariant 0 <= rangeindex + 1 && rangeindex + 1 <= len(cs) && len(times) == rangeindex + 1
+//@   loop 1 invariant allC(cs, rangeindex + 1, ast.TimeType) && valsAre(times, cs, rangeindex + 1)
+
+//@ func getDurationValues(cs)
+//@   pure
+//@   ensures allC(cs, len(cs), ast.DurationType) ==> err == nil && len(result) == len(cs) && valsAre(result, cs, len(cs))
+//@   ensures !allC(cs, len(cs), ast.DurationType) ==> err != nil
+//@   loop 1 invariant 0 <= rangeindex + 1 && rangeindex + 1 <= len(cs) && len(durations) == rangeindex + 1
+//@   loop 1 invariant allC(cs, rangeindex + 1, ast.DurationType) && valsAre(durations, cs, rangeindex + 1)
+
+// Decide: comparison predicates form the usual total order on the int64 payload of their kind.
+//@ spec func cmp2(atom ast.Atom, sym string, ty ast.ConstantType) bool =
+//@      atom.Predicate.Symbol == sym && len(atom.Args) == 2 && isC(atom.Args[0], ty) && isC(atom.Args[1], ty)
+//@ spec func arg0(atom ast.Atom) int64 = valOf(atom.Args[0])
+//@ spec func arg1(atom ast.Atom) int64 = valOf(atom.Args[1])
+
+//@ func Decide(atom, subst)
+//@   opt allowpanic
+//@   ensures cmp2(atom, symbols.Lt.Symbol, ast.NumberType) ==> err == nil && ret0 == (arg0(atom) < arg1(atom))
+//@   ensures cmp2(atom, symbols.Le.Symbol, ast.NumberType) ==> err == nil && ret0 == (arg0(atom) <= arg1(atom))
+//@   ensures cmp2(atom, symbols.Gt.Symbol, ast.NumberType) ==> err == nil && ret0 == (arg0(atom) > arg1(atom))
+//@   ensures cmp2(atom, symbols.Ge.Symbol, ast.NumberType) ==> err == nil && ret0 == (arg0(atom) >= arg1(atom))
+//@   ensures cmp2(atom, symbols.TimeLt.Symbol, ast.TimeType) ==> err == nil && ret0 == (arg0(atom) < arg1(atom))
+//@   ensures cmp2(atom, symbols.TimeLe.Symbol, ast.TimeType) ==> err == nil && ret0 == (arg0(atom) <= arg1(atom))
+//@   ensures cmp2(atom, symbols.TimeGt.Symbol, ast.TimeType) ==> err == nil && ret0 == (arg0(atom) > arg1(atom))
+//@   ensures cmp2(atom, symbols.TimeGe.Symbol, ast.TimeType) ==> err == nil && ret0 == (arg0(atom) >= arg1(atom))
+//@   ensures cmp2(atom, symbols.DurationLt.Symbol, ast.DurationType) ==> err == nil && ret0 == (arg0(atom) < arg1(atom))
+//@   ensures cmp2(atom, symbols.DurationLe.Symbol, ast.DurationType) ==> err == nil && ret0 == (arg0(atom) <= arg1(atom))
+//@   ensures cmp2(atom, symbols.DurationGt.Symbol, ast.DurationType) ==> err == nil && ret0 == (arg0(atom) > arg1(atom))
+//@   ensures cmp2(atom, symbols.DurationGe.Symbol, ast.DurationType) ==> err == nil && ret0 == (arg0(atom) >= arg1(atom))
+//@   ensures atom.Predicate.Symbol == symbols.Lt.Symbol && !(len(atom.Args) == 2 && isC(atom.Args[0], ast.NumberType) && isC(atom.Args[1], ast.NumberType)) ==> err != nil
+//@   ensures atom.Predicate.Symbol == symbols.Le.Symbol && !(len(atom.Args) == 2 && isC(atom.Args[0], ast.NumberType) && isC(atom.Args[1], ast.NumberType)) ==> err != nil
+//@   ensures atom.Predicate.Symbol == symbols.Gt.Symbol && !(len(atom.Args) == 2 && isC(atom.Args[0], ast.NumberType) && isC(atom.Args[1], ast.NumberType)) ==> err != nil
+//@   ensures atom.Predicate.Symbol == symbols.Ge.Symbol && !(len(atom.Args) == 2 && isC(atom.Args[0], ast.NumberType) && isC(atom.Args[1], ast.NumberType)) ==> err != nil
+//@   ensures atom.Predicate.Symbol == symbols.TimeLt.Symbol && !(len(atom.Args) == 2 && isC(atom.Args[0], ast.TimeType) && isC(atom.Args[1], ast.TimeType)) ==> err != nil
+//@   ensures atom.Predicate.Symbol == symbols.TimeLe.Symbol && !(len(atom.Args) == 2 && isC(atom.Args[0], ast.TimeType) && isC(atom.Args[1], ast.TimeType)) ==> err != nil
+//@   ensures atom.Predicate.Symbol == symbols.TimeGt.Symbol && !(len(atom.Args) == 2 && isC(atom.Args[0], ast.TimeType) && isC(atom.Args[1], ast.TimeType)) ==> err != nil
+//@   ensures atom.Predicate.Symbol == symbols.TimeGe.Symbol && !(len(atom.Args) == 2 && isC(atom.Args[0], ast.TimeType) && isC(atom.Args[1], ast.TimeType)) ==> err != nil
+//@   ensures atom.Predicate.Symbol == symbols.DurationLt.Symbol && !(len(atom.Args) == 2 && isC(atom.Args[0], ast.DurationType) && isC(atom.Args[1], ast.DurationType)) ==> err != nil
+//@   ensures atom.Predicate.Symbol == symbols.DurationLe.Symbol && !(len(atom.Args) == 2 && isC(atom.Args[0], ast.DurationType) && isC(atom.Args[1], ast.DurationType)) ==> err != nil
+//@   ensures atom.Predicate.Symbol == symbols.DurationGt.Symbol && !(len(atom.Args) == 2 && isC(atom.Args[0], ast.DurationType) && isC(atom.Args[1], ast.DurationType)) ==> err != nil
+//@   ensures atom.Predicate.Symbol == symbols.DurationGe.Symbol && !(len(atom.Args) == 2 && isC(atom.Args[0], ast.DurationType) && isC(atom.Args[1], ast.DurationType)) ==> err != nil
